@@ -111,6 +111,10 @@ def rule_dof_guard(F, ev, R, config, rule="R-DOF-GUARD", checked=True):
             for r in rels:
                 if r in (("Lt", ("const", "usize", 0), dof), ("Ne", ("const", "usize", 0), dof), ("Ne", dof, ("const", "usize", 0)), ("Le", ("const", "usize", 1), dof)):
                     okc = True
+            for term, truth, sw in raw:
+                # `Some(0)` pattern: integer switch on the difference, success on the non-zero edge
+                if term == dof and truth is True:
+                    okc = True
             okc = okc or want in rels
         else:
             okc = want in rels
@@ -130,17 +134,40 @@ def rule_dof_guard(F, ev, R, config, rule="R-DOF-GUARD", checked=True):
                               "" if okk else ("`%s - %s` (overflow-checked in this profile) is executed before/without the "
                                               "guard N > M+P: panics \"attempt to subtract with overflow\" when N < M+P"
                                               % (short(n), short(tot))), t.get("span"))
-        # Err(Underdetermined) only under N <= M+P
+        # Err(Underdetermined) only under N <= M+P — in any of the recognised forms of that test
+        def is_checked_sub(x):
+            while x[0] in ("payload", "opt", "cf"):
+                x = x[1]
+            return x[0] == "call" and x[1].endswith("checked_sub") and x[3] == (n, tot)
+
+        def defect_edges():
+            es = []
+            for sw in g.switches:
+                t = sw["term"]
+                for truth in (True, False):
+                    r = canon_rel(t, truth)
+                    if r == ("Le", n, tot) or r == ("Lt", n, tot):
+                        es.append(g.bool_edges(sw, truth))
+                    # the difference is not positive
+                    if r and is_checked_sub(r[1] if r[1][0] != "const" else r[2]):
+                        p_, c_ = (r[1], r[2]) if r[2][0] == "const" else (r[2], r[1])
+                        if (r[0] == "Eq" and c_ == ("const", "usize", 0)) or (r[0] == "Le" and r[1] == p_ and c_ == ("const", "usize", 0)) or \
+                                (r[0] == "Lt" and r[1] == p_ and c_ == ("const", "usize", 1)):
+                            es.append(g.bool_edges(sw, truth))
+                if t[0] == "discr" and is_checked_sub(t[1]):
+                    yes, no = variant_edge(b, sw["block"], "None")
+                    if yes:
+                        es.append(yes)
+                if t[0] == "payload" and is_checked_sub(t):
+                    # integer switch on the difference: the value-0 edge
+                    z = [(sw["block"], tg) for v, tg in sw["targets"] if v == 0]
+                    if z:
+                        es.append(z)
+            return es
+
         for ebi, esi, es in b.stmts():
             if es["k"] == "assign" and es["rv"]["k"] == "agg" and es["rv"].get("variant") == "Underdetermined":
-                edges = []
-                for sw in g.switches:
-                    r = canon_rel(sw["term"], True)
-                    if r == ("Le", n, tot):
-                        edges.append(g.bool_edges(sw, True))
-                    r2 = canon_rel(sw["term"], False)
-                    if r2 == ("Le", n, tot):
-                        edges.append(g.bool_edges(sw, False))
+                edges = defect_edges()
                 okk = bool(edges) and g.holds_on_all_paths_to(ebi, edges)
                 if not okk:
                     # Err(Underdetermined) as the `ok_or` alternative of the checked subtraction
@@ -195,7 +222,7 @@ def rule_stats_err_map(F, ev, R, config, rule="R-STATS-ERR-MAP"):
                 if vs and all(v == "Some" for v in vs) and contains(inner, lambda x: x[0] == "field" and x[1][0] != "param"):
                     pass
                 # (3) try_calculate returned Ok
-                if vs and all(v in ("Ok", "Continue") for v in vs) and contains(inner, lambda x: x[0] == "agg" and x[1] == ADT_STATS or (x[0] == "call" and "try_calculate" in x[1])):
+                if vs and all(v in ("Ok", "Continue", "Some") for v in vs) and contains(inner, lambda x: x[0] == "agg" and x[1] == ADT_STATS or (x[0] == "call" and "try_calculate" in x[1])):
                     have["statistics"] = True
         for k2, v in have.items():
             R.add(rule, config, b.key, "ok-needs-" + k2, v, "" if v else "Ok((result, statistics)) is reachable without `%s`" % k2, s.get("span"))
